@@ -275,6 +275,9 @@ def classify(c):
         import re
         if re.search(r"(^|,)\s*\*\s*(,|$)", i["signature"]):
             return "C19-signature-bare-star-dropped"
+    if c["kind"] == "signature-reemission" and "/" in i.get("signature", ""):
+        # the names are kept (fixed), the marker itself is not carried through: same class as the bare star
+        return "C19-signature-bare-star-dropped"
     return None
 
 
